@@ -11,7 +11,11 @@
                ThreadPool::forceEnqueue runs f() at once on the scheduling thread, no guard (same inline depth)
      HQueued   otherwise the packaged task is queued and run later by a pool thread or a waiter, at that thread's
                base inline depth 0
-   Whether the load test passes is the oracle `want : path -> bool`; the depth test is part of the model. *)
+   Whether the load test passes is the oracle `want : path -> bool`; the depth test is part of the model.
+   Both TaskCost kinds have this shape: kHeavy goes through schedulePlaced (threshold max(numThreads+1, loadFactor/2)),
+   kLightweight through the body of schedule() itself (threshold loadFactor = 4*numThreads); in both the gate is
+   `outstanding > threshold && !canceled() && canInlineSchedule()` as ONE condition, so an overloaded set whose
+   thread is already kMaxInlineDepth deep falls through to the force-queued enqueue: inline -> queue at depth 32. *)
 From Coq Require Import ZArith List Bool.
 Import ListNotations.
 Local Open Scope Z_scope.
@@ -83,5 +87,13 @@ Fixpoint regular (shape : list nat) : tree :=
 (* left comb: the FIRST (scheduled) functor recurses, the last is a leaf; right comb: the LAST (direct) one recurses *)
 Fixpoint comb_l (n : nat) : tree := match n with O => Node [] | S m => Node [comb_l m; Node []] end.
 Fixpoint comb_r (n : nat) : tree := match n with O => Node [] | S m => Node [Node []; comb_r m] end.
+
+(* zigzag comb: recursion through the first (scheduled) functor on even levels, through the last (direct) one on odd levels *)
+Fixpoint comb_z_from (lvl n : nat) : tree :=
+  match n with
+  | O => Node []
+  | S m => if Nat.even lvl then Node [comb_z_from (S lvl) m; Node []] else Node [Node []; comb_z_from (S lvl) m]
+  end.
+Definition comb_z (n : nat) : tree := comb_z_from 0 n.
 
 Definition how_code (h : how) : Z := match h with HRoot => -1 | HInline => 0 | HPoolNow => 1 | HQueued => 2 | HLast => 3 end.
